@@ -166,7 +166,7 @@ func init() {
 		h.tag(fmt.Sprintf("wfault-calls:%s", kind))
 		swallowed, closeNil := 0, 0
 		// every call position when the run makes at most 4000 underlying writes; beyond that (MiB-size armored
-		// messages: one write per word) the first and last 1500 positions and 1500 evenly spaced ones
+		// messages: one write per word) the first and last 600 positions and 600 evenly spaced ones
 		var ks []int
 		if n <= 4000 {
 			for k := 0; k < n; k++ {
@@ -180,10 +180,10 @@ func init() {
 					ks = append(ks, k)
 				}
 			}
-			for k := 0; k < 1500; k++ {
+			for k := 0; k < 600; k++ {
 				add(k)
 				add(n - 1 - k)
-				add(k * (n / 1500))
+				add(k * (n / 600))
 			}
 		}
 		for _, k := range ks {
